@@ -165,7 +165,7 @@ func (d *Decoder) ReadList(flag int32) (interface{}, error) {
 	tag, err := getTag(d.reader, flag)
 	if err != nil {
 		hlog.Debugf("reading tag err:%v", err)
-		return nil, nil //ignore
+		return nil, err
 	}
 
 	if binaryTag(tag) {
@@ -237,13 +237,9 @@ func (d *Decoder) readTypedList(tag byte) (interface{}, error) {
 			return nil, newCodecError("readTypedList", err)
 		}
 
-		if item == nil {
-			break
-		}
-
 		v := EnsureRawValue(item)
 		if isVariableArr {
-			aryValue = reflect.Append(aryValue, v)
+			aryValue = reflect.Append(aryValue, valueOrZero(v, aryType.Elem()))
 			holder.change(aryValue)
 		} else {
 			SetValue(aryValue.Index(j), v)
@@ -297,7 +293,7 @@ func (d *Decoder) readUntypedList(tag byte) (interface{}, error) {
 		}
 
 		if isVariableArr {
-			aryValue = reflect.Append(aryValue, EnsureRawValue(it))
+			aryValue = reflect.Append(aryValue, valueOrZero(EnsureRawValue(it), aryValue.Type().Elem()))
 			holder.change(aryValue)
 		} else {
 			ary[j] = it
